@@ -12,8 +12,33 @@ from props import register
 def pred_game(rng, kind=None, stratum=None, n=None, maxsize=8):
     kind = kind or rng.choice(KINDS)
     beta, kappa, tau = gen_config(rng)
-    stratum = stratum or rng.choice(["typical", "typical", "wide", "corners", "mismatch", "identical", "equalsize", "tiny-sigma", "equal-ordinal", "near-identical"])
-    if stratum == "near-identical":
+    stratum = stratum or rng.choice(["typical", "typical", "wide", "corners", "mismatch", "identical", "equalsize", "tiny-sigma", "equal-ordinal", "near-identical", "zero-sigma", "newcomers"])
+    if stratum == "newcomers":
+        # new players hold the model's default rating: equal (mu, sigma) within a team and across teams, next to a few others
+        n = n or rng.randint(2, 6)
+        sc = beta / core.DEFAULTS["beta"]
+        dflt = (25.0 * sc, 25.0 / 3.0 * sc)
+        alt = (rng.gauss(25, 6) * sc, rng.uniform(1, 9) * sc)
+        teams = []
+        for i in range(n):
+            sz = rng.randint(1, min(4, maxsize))
+            teams.append([dflt if rng.random() < 0.7 else (alt if rng.random() < 0.6 else (rng.gauss(25, 6) * sc, rng.uniform(1, 9) * sc)) for _ in range(sz)])
+    elif stratum == "zero-sigma":
+        # perfectly known players (sigma exactly 0.0, or so small that its square underflows to 0.0): whole teams, or one member
+        n = n or rng.randint(2, 5)
+        sc = beta / core.DEFAULTS["beta"]
+        teams = []
+        for i in range(n):
+            sz = rng.randint(1, min(3, maxsize))
+            z = rng.choice([0.0, 0.0, 1e-170 * sc])
+            if i == 0 or rng.random() < 0.4:
+                teams.append([(rng.gauss(25, 4) * sc, z) for _ in range(sz)])
+            elif rng.random() < 0.3:
+                teams.append([(rng.gauss(25, 4) * sc, z)] + [(rng.gauss(25, 4) * sc, rng.uniform(1, 9) * sc) for _ in range(sz - 1)])
+            else:
+                teams.append([(rng.gauss(25, 4) * sc, rng.uniform(1, 9) * sc) for _ in range(sz)])
+        rng.shuffle(teams)
+    elif stratum == "near-identical":
         # teams that differ by a few ulps in one mu: their probabilities may round to the same double
         n = n or rng.randint(3, 4)
         beta = core.DEFAULTS["beta"]
@@ -83,6 +108,21 @@ def impl_pred(g, cls=None, probe=None):
     if probe is None:
         probe = core.REENTRANT_EVERY > 0 and h % core.REENTRANT_EVERY == 1
     teams = build_teams(model, g)
+    # value coincidences inside one team are served by object sharing every other time: a member listed twice IS one object
+    # (`[model.rating()] * 2`), which must count twice, exactly like two different players with those values
+    if h % 2 == 0:
+        for t in teams:
+            for j in range(1, len(t)):
+                for i in range(j):
+                    if (t[i].mu, t[i].sigma) == (t[j].mu, t[j].sigma):
+                        t[j] = t[i]
+                        PRED_STATS["member_listed_twice"] = PRED_STATS.get("member_listed_twice", 0) + 1
+                        break
+    # ids are labels: every eleventh game all first players carry one id (clones of a template; a guest account)
+    if h % 11 == 3:
+        PRED_STATS["shared_ids"] = PRED_STATS.get("shared_ids", 0) + 1
+        for t in teams:
+            t[0].id = teams[0][0].id
     if g.get("alias"):
         for i in range(len(teams)):
             for j in range(i):
@@ -194,6 +234,12 @@ def reconfigure_sequence(res, g, rng, prop, kind_on_mismatch="property"):
             got = (model.predict_win(teams), model.predict_draw(teams), model.predict_rank(teams))
             want = impl_pred(dict(g2, beta=model.beta, teams=[[(p.mu, p.sigma) for p in t] for t in teams]), probe=False)
             res.count("reconfigured_in_place")
+            w_, d_, r_ = got
+            if not (all(-1e-12 <= x <= 1 + 1e-12 for x in w_) and abs(sum(w_) - 1) <= 1e-9 and -1e-12 <= d_ <= 1 + 1e-12
+                    and all(-1e-12 <= x[1] <= 1 + 1e-12 for x in r_)):
+                res.fail("property", "%s: after re-tuning the model in place (beta x %r) a prediction leaves [0, 1] or predict_win does not sum to 1: win %r draw %r rank %r" % (
+                    prop, k, w_, d_, r_), inp)
+                return
             if got != want:
                 res.fail(kind_on_mismatch, "%s: after re-tuning the model in place (beta x %r) the predictions %r differ from a model constructed with those parameters %r" % (
                     prop, k, got, want), inp)
@@ -211,7 +257,8 @@ def inplace_sequence(res, g, rng, prop):
         model = build_model(g)
         objs = build_teams(model, g)
         model.predict_rank(objs); model.predict_draw(objs)
-        if rng.random() < 0.6:
+        ratable = all(any(s_ * s_ > 0 for (_m, s_) in t) for t in g["teams"])      # rate() is not defined for a team of zero variance
+        if rng.random() < 0.6 and ratable:
             model.rate(objs, ranks=list(range(len(objs))))
         else:
             p = objs[rng.randrange(len(objs))][0]
@@ -346,6 +393,9 @@ def c09(res):
         res.case(g); describe(res, g)
         c09_one(res, g, rng)
         games.append(g)
+    for g in games[:: max(1, len(games) // 120)]:
+        reconfigure_sequence(res, g, rng, "C09")
+        inplace_sequence(res, g, rng, "C09")
     for kind in KINDS:      # two identical teams, every model
         for sz in (1, 2, 5):
             t = [(rng.gauss(25, 8), rng.uniform(0.5, 9)) for _ in range(sz)]
@@ -433,6 +483,7 @@ def c10(res):
             res.case(g); c10_one(res, g, rng); games.append(g)
     for g in games[:: max(1, len(games) // 150)]:
         inplace_sequence(res, g, rng, "C10")
+        reconfigure_sequence(res, g, rng, "C10")
     corr_pred(res, games, "correspondence", "C10", which=("draw",))
     res.rule = ("predict_draw on the implementation: range [0,1] (1e-12 slack), independence of team and player order, two teams: "
                 "non-increasing along a ladder of widening gaps, n teams: equalised copy not lower; incl. N=2 with sigma->0 and teams of up "
@@ -512,6 +563,7 @@ def c11(res):
         games.append(g)
     for g in games[:: max(1, len(games) // 150)]:
         inplace_sequence(res, g, rng, "C11")
+        reconfigure_sequence(res, g, rng, "C11")
     corr_pred(res, games, "correspondence", "C11", which=("rank", "draw"))
     res.rule = ("predict_rank on the implementation: one pair per team, probabilities in [0,1], integer ranks in 1..n consistent with the "
                 "probabilities (strict, ties, best = 1), n>=3: probabilities + predict_draw = 1 (1e-9); incl. exactly identical teams; "
